@@ -802,13 +802,143 @@ func driveC17(c *h.Ctx) error {
 		return c17replayDynamic(c, replayCase)
 	}
 
-	d := &c17run{c: c, live: live}
+	d := &c17run{c: c, live: live, oracle: true}
 	d.tagCases()
 	d.enumCases()
 	d.maskCases()
 	d.textCases()
 	c.Exhaustive(true)
-	return d.writeCases()
+	// ---- second registry: the readers and writers on names that violate the hygiene rules
+	// (model = implementation only; the property is not expected to hold there)
+	tsnap := c17registerTestEntries()
+	dt := &c17run{c: c, live: tsnap, oracle: false, pfx: "t_"}
+	dt.testRegistryCases()
+	return d.writeCases(dt, tsnap)
+}
+
+// Go types of the test enumeration / mask (registered only inside this driver process).
+type c17TE uint32
+type c17TM int32
+
+const (
+	c17tE  = 0x540101
+	c17tM  = 0x540102
+	c17tM2 = 0x540103
+)
+
+var c17testTags = []struct {
+	name string
+	num  int
+}{{"X Y", 0x540110}, {"0x12", 0x540111}, {"TTLV", 0x540112}, {"", 0x540113}, {"12", 0x540114}, {"Dup", 0x540115}, {"Dup", 0x540116},
+	{"0X13", 0x540117}, {"lower", 0x540118}, {"Tag-With.Dots", 0x540119}, {"_u", 0x54011A}, {"0xZZ", 0x54011B}, {"Big", 0x7FFFFFF0}, {"Zero", 0}}
+
+var c17testEnum = map[c17TE]string{1: "A B", 2: "12", 3: "0x10", 4: "", 5: "x|y", 6: "Plain", 7: "0X11", 8: "+5", 9: " Lead", 10: "Dup", 11: "Dup",
+	12: "0xZZ", 13: "4294967296", 14: "Trail ", 15: "-1", 0xFFFFFFFF: "Max", 0: "ZeroValue"}
+
+var c17testMask = []string{"A", "", "C", "0x4", "5", "B C", "D|E", "Dup", "Dup", "-1", "Plain", "0X20", "+7", "0xZZ", "x y|z", "Last"}
+
+// c17registerTestEntries registers unhygienic names through the library's public Register* functions
+// and returns the snapshot of the resulting registry.
+func c17registerTestEntries() *reg.Snapshot {
+	for _, t := range c17testTags {
+		ttlv.RegisterTag(t.name, t.num)
+	}
+	ttlv.RegisterEnum(c17tE, c17testEnum)
+	ttlv.RegisterBitmask[c17TM](c17tM, c17testMask...)
+	full := make([]string, 32)
+	for i := range full {
+		full[i] = fmt.Sprintf("F%d", i)
+	}
+	full[3] = ""
+	full[31] = "Top"
+	ttlv.RegisterBitmask[c17TM](c17tM2, full...)
+	return reg.FromLive()
+}
+
+func (d *c17run) testRegistryCases() {
+	c := d.c
+	// tags
+	for _, t := range c17testTags {
+		n := int64(t.num)
+		c.Eval(fmt.Sprintf("t_tagw/%d", n), true)
+		c.Count("test-registry:tag")
+		ts := ttlv.TagString(int(n))
+		wx := c17write(fXML, "Integer", func(e *ttlv.Encoder) { e.Integer(int(n), 1) })
+		wj := c17write(fJSON, "Integer", func(e *ttlv.Encoder) { e.Integer(int(n), 1) })
+		wt := c17write(fText, "Integer", func(e *ttlv.Encoder) { e.Integer(int(n), 1) })
+		if wx.Panic != "" || wj.Panic != "" || wt.Panic != "" {
+			c.Count("test-registry:unobservable-output")
+			continue
+		}
+		d.tagwRows = append(d.tagwRows, fmt.Sprintf("(%s, %s, %s, %s, %s, %s)", h.Z(n), c17Str(ts), c17Str(wx.Name), c17OptStr(wx.Attr), c17Str(wj.Tag), c17Str(wt.Tag)))
+		c.IndexCase("mism_t_tagw", len(d.tagwRows)-1, map[string]any{"kind": "test-registry", "tag": n})
+	}
+	raws := []string{"", "TTLV", "0x12", "0X13", "12", "Dup", "lower", "X Y", "0x540110", "0xZZ", "_u", "Tag-With.Dots", "Big", "Zero", "0x7FFFFFF0", "0x0", "Nope"}
+	for _, raw := range raws {
+		c.Eval("t_tagr/"+raw, true)
+		cas := map[string]any{"kind": "test-registry", "raw": raw}
+		if c17validXMLName(raw) {
+			r := c17readTagXML(raw, nil)
+			d.tagrRows = append(d.tagrRows, fmt.Sprintf("(%s, None, %s)", c17Str(raw), r.coq()))
+			c.IndexCase("mism_t_tagr", len(d.tagrRows)-1, cas)
+		}
+		r := c17readTagXML("TTLV", &raw)
+		d.tagrRows = append(d.tagrRows, fmt.Sprintf("(%s, %s, %s)", c17Str("TTLV"), c17OptStr(&raw), r.coq()))
+		c.IndexCase("mism_t_tagr", len(d.tagrRows)-1, cas)
+		r = c17readTagJSON(raw)
+		d.tagrRows = append(d.tagrRows, fmt.Sprintf("(%s, %s, %s)", c17Str("TTLV"), c17OptStr(&raw), r.coq()))
+		c.IndexCase("mism_t_tagr", len(d.tagrRows)-1, cas)
+	}
+	// enumeration
+	for v := int64(0); v <= 17; v++ {
+		d.oneEnumWrite(c17enumCase{0, c17tE, v}, true)
+		d.oneEnumWrite(c17enumCase{c17tE, c17AttributeValue, v}, true)
+	}
+	d.oneEnumWrite(c17enumCase{0, c17tE, 0xFFFFFFFF}, true)
+	var texts []string
+	for _, n := range c17testEnum {
+		texts = append(texts, n, n+" ", " "+n, strings.ToLower(n))
+	}
+	sort.Strings(texts)
+	texts = append(texts, c17numStrings...)
+	for _, s := range texts {
+		for _, form := range []string{"xml", "json"} {
+			d.oneEnumRead(c17readCase{form, 0, c17tE, c17jval{Str: s}})
+			d.oneEnumRead(c17readCase{form, c17tE, c17AttributeValue, c17jval{Str: s}})
+		}
+	}
+	// masks
+	for mi, m := range []struct {
+		tag   int64
+		names []string
+	}{{c17tM, c17testMask}, {c17tM2, nil}} {
+		names := m.names
+		if names == nil {
+			for _, e := range d.live.BitmaskNames {
+				if e.Tag == m.tag {
+					names = e.Names
+				}
+			}
+		}
+		for _, v := range d.maskValues(len(names), uint64(8000+mi)) {
+			d.oneMaskWrite(c17maskCase{0, m.tag, v})
+		}
+		var nonEmpty []string
+		for _, n := range names {
+			if n != "" {
+				nonEmpty = append(nonEmpty, n)
+			}
+		}
+		strs := d.maskStrings(nonEmpty, uint64(8100+mi))
+		for _, n := range names {
+			strs = append(strs, n, n+" "+n, n+"|"+n, " "+n, n+" | 0x1")
+		}
+		for _, s := range strs {
+			for _, form := range []string{"xml", "json"} {
+				d.oneMaskRead(c17readCase{form, 0, m.tag, c17jval{Str: s}})
+			}
+		}
+	}
 }
 
 func toInt(v any) any {
@@ -821,8 +951,18 @@ func toInt(v any) any {
 type c17run struct {
 	c    *h.Ctx
 	live *reg.Snapshot
+	// oracle: evaluate the property statement (true on the library's registry; false on the
+	// deliberately unhygienic test registry, where only model = implementation is checked)
+	oracle bool
+	pfx    string // prefix of the mismatch tables ("" or "t_")
 
 	tagwRows, tagrRows, enumwRows, enumrRows, maskwRows, maskrRows, mtwRows, mtrRows, mmwRows, mmrRows []string
+}
+
+func (d *c17run) fail(sig, desc string, cas any) {
+	if d.oracle {
+		d.c.Fail(sig, desc, cas)
+	}
 }
 
 // ---- tags
@@ -867,7 +1007,7 @@ func (d *c17run) tagCases() {
 		wj := c17write(fJSON, "Integer", func(e *ttlv.Encoder) { e.Integer(int(n), 1) })
 		wt := c17write(fText, "Integer", func(e *ttlv.Encoder) { e.Integer(int(n), 1) })
 		if wx.Panic != "" || wj.Panic != "" || wt.Panic != "" {
-			c.Fail("C17/tag-rt/writer-panic", fmt.Sprintf("writing tag 0x%X panicked: %s %s %s", n, wx.Panic, wj.Panic, wt.Panic), cas)
+			d.fail("C17/tag-rt/writer-panic", fmt.Sprintf("writing tag 0x%X panicked: %s %s %s", n, wx.Panic, wj.Panic, wt.Panic), cas)
 			continue
 		}
 		// oracle: what is written is read back as the same number (3-byte tags and beyond, up to int32)
@@ -875,17 +1015,17 @@ func (d *c17run) tagCases() {
 			rx := c17readTagXML(wx.Name, wx.Attr)
 			rj := c17readTagJSON(wj.Tag)
 			if !(rx.Ok && rx.Val == n) {
-				c.Fail("C17/tag-rt/xml", fmt.Sprintf("tag 0x%X is written <%s tag=%v> in XML and read back as %s", n, wx.Name, deref(wx.Attr), rx), cas)
+				d.fail("C17/tag-rt/xml", fmt.Sprintf("tag 0x%X is written <%s tag=%v> in XML and read back as %s", n, wx.Name, deref(wx.Attr), rx), cas)
 			}
 			if !(rj.Ok && rj.Val == n) {
-				c.Fail("C17/tag-rt/json", fmt.Sprintf("tag 0x%X is written %q in JSON and read back as %s", n, wj.Tag, rj), cas)
+				d.fail("C17/tag-rt/json", fmt.Sprintf("tag 0x%X is written %q in JSON and read back as %s", n, wj.Tag, rj), cas)
 			}
 		}
 		if wt.Tag != ts || wj.Tag != ts {
-			c.Fail("C17/tag-rt/forms-differ", fmt.Sprintf("tag 0x%X: TagString %q, JSON %q, text %q", n, ts, wj.Tag, wt.Tag), cas)
+			d.fail("C17/tag-rt/forms-differ", fmt.Sprintf("tag 0x%X: TagString %q, JSON %q, text %q", n, ts, wj.Tag, wt.Tag), cas)
 		}
 		d.tagwRows = append(d.tagwRows, fmt.Sprintf("(%s, %s, %s, %s, %s, %s)", h.Z(n), c17Str(ts), c17Str(wx.Name), c17OptStr(wx.Attr), c17Str(wj.Tag), c17Str(wt.Tag)))
-		c.IndexCase("mism_tagw", len(d.tagwRows)-1, cas)
+		c.IndexCase("mism_"+d.pfx+"tagw", len(d.tagwRows)-1, cas)
 		if len(d.tagwRows)%97 == 1 {
 			c.Sample(map[string]any{"table": "tagw", "tag": n, "TagString": ts, "xml_element": wx.Name, "xml_tag_attr": deref(wx.Attr)})
 		}
@@ -914,16 +1054,16 @@ func (d *c17run) tagCases() {
 		if c17validXMLName(raw) {
 			r := c17readTagXML(raw, nil)
 			d.tagrRows = append(d.tagrRows, fmt.Sprintf("(%s, None, %s)", c17Str(raw), r.coq()))
-			c.IndexCase("mism_tagr", len(d.tagrRows)-1, cas)
+			c.IndexCase("mism_"+d.pfx+"tagr", len(d.tagrRows)-1, cas)
 		}
 		if xmlSafe(raw) {
 			r := c17readTagXML("TTLV", &raw)
 			d.tagrRows = append(d.tagrRows, fmt.Sprintf("(%s, %s, %s)", c17Str("TTLV"), c17OptStr(&raw), r.coq()))
-			c.IndexCase("mism_tagr", len(d.tagrRows)-1, cas)
+			c.IndexCase("mism_"+d.pfx+"tagr", len(d.tagrRows)-1, cas)
 		}
 		r := c17readTagJSON(raw)
 		d.tagrRows = append(d.tagrRows, fmt.Sprintf("(%s, %s, %s)", c17Str("TTLV"), c17OptStr(&raw), r.coq()))
-		c.IndexCase("mism_tagr", len(d.tagrRows)-1, cas)
+		c.IndexCase("mism_"+d.pfx+"tagr", len(d.tagrRows)-1, cas)
 	}
 }
 
@@ -979,7 +1119,7 @@ func (d *c17run) oneEnumWrite(ec c17enumCase, registered bool) {
 	for f := fXML; f <= fText; f++ {
 		w[f] = c17write(f, "Enumeration", func(e *ttlv.Encoder) { e.Enum(int(ec.EnumTag), int(ec.Tag), uint32(ec.Val)) })
 		if w[f].Panic != "" {
-			c.Fail("C17/enum-rt/writer-panic/"+c17formName[f], fmt.Sprintf("Enum(0x%X, 0x%X, 0x%X) panicked in the %s writer: %s", ec.EnumTag, ec.Tag, ec.Val, c17formName[f], w[f].Panic), cas)
+			d.fail("C17/enum-rt/writer-panic/"+c17formName[f], fmt.Sprintf("Enum(0x%X, 0x%X, 0x%X) panicked in the %s writer: %s", ec.EnumTag, ec.Tag, ec.Val, c17formName[f], w[f].Panic), cas)
 			return
 		}
 	}
@@ -988,11 +1128,11 @@ func (d *c17run) oneEnumWrite(ec c17enumCase, registered bool) {
 		r := c17readEnum(f, ec.EnumTag, ec.Tag, c17jval{Str: w[f].Val})
 		if !(r.Ok && r.Val == ec.Val) {
 			cc := map[string]any{"kind": "enum-rt", "form": c17formName[f], "enumtag": ec.EnumTag, "tag": ec.Tag, "value": ec.Val}
-			c.Fail("C17/enum-rt/"+c17formName[f], fmt.Sprintf("enumeration 0x%X value 0x%X is written %q in %s and read back as %s", c17eff(ec.EnumTag, ec.Tag), ec.Val, w[f].Val, c17formName[f], r), cc)
+			d.fail("C17/enum-rt/"+c17formName[f], fmt.Sprintf("enumeration 0x%X value 0x%X is written %q in %s and read back as %s", c17eff(ec.EnumTag, ec.Tag), ec.Val, w[f].Val, c17formName[f], r), cc)
 		}
 	}
 	d.enumwRows = append(d.enumwRows, fmt.Sprintf("(%s, %s, %s, %s, %s, %s)", h.Z(ec.EnumTag), h.Z(ec.Tag), h.Z(ec.Val), c17Str(w[fXML].Val), c17Str(w[fJSON].Val), c17Str(w[fText].Val)))
-	c.IndexCase("mism_enumw", len(d.enumwRows)-1, cas)
+	c.IndexCase("mism_"+d.pfx+"enumw", len(d.enumwRows)-1, cas)
 	if len(d.enumwRows)%301 == 1 {
 		c.Sample(map[string]any{"table": "enumw", "enumtag": ec.EnumTag, "tag": ec.Tag, "value": ec.Val, "xml": w[fXML].Val, "json": w[fJSON].Val, "text": w[fText].Val})
 	}
@@ -1011,7 +1151,7 @@ func (d *c17run) oneEnumRead(rc c17readCase) {
 	c.Count("enumr:" + rc.Form)
 	r := c17readEnum(form, rc.RealTag, rc.Tag, rc.In)
 	if r.Panic != "" {
-		c.Fail("C17/enum-read/panic/"+rc.Form, fmt.Sprintf("%s Enum reader panicked on %v: %s", rc.Form, rc.In, r.Panic), map[string]any{"kind": "enum-read", "case": rc})
+		d.fail("C17/enum-read/panic/"+rc.Form, fmt.Sprintf("%s Enum reader panicked on %v: %s", rc.Form, rc.In, r.Panic), map[string]any{"kind": "enum-read", "case": rc})
 	}
 	in := c17Str(rc.In.Str)
 	if form == fJSON {
@@ -1020,7 +1160,7 @@ func (d *c17run) oneEnumRead(rc c17readCase) {
 		in = "(JStr " + in + ")"
 	}
 	d.enumrRows = append(d.enumrRows, fmt.Sprintf("(%s, %s, %s, %s)", h.Z(rc.RealTag), h.Z(rc.Tag), in, r.coq()))
-	d.c.IndexCase("mism_enumr", len(d.enumrRows)-1, map[string]any{"kind": "enum-read", "case": rc, "observed": r.String()})
+	d.c.IndexCase("mism_"+d.pfx+"enumr", len(d.enumrRows)-1, map[string]any{"kind": "enum-read", "case": rc, "observed": r.String()})
 }
 
 var c17numStrings = []string{"", "0", "5", "05", "00012", "4294967295", "4294967296", "99999999999999999999", "+5", "-1", "-0", "1_000", "0x", "0x5", "0X5", "0x05", "0x0000000A",
@@ -1134,7 +1274,7 @@ func (d *c17run) oneMaskWrite(mc c17maskCase) {
 	for f := fXML; f <= fText; f++ {
 		w[f] = c17write(f, "Integer", func(e *ttlv.Encoder) { e.Bitmask(int(mc.MaskTag), int(mc.Tag), int32(mc.Val)) })
 		if w[f].Panic != "" {
-			c.Fail("C17/mask-rt/writer-panic/"+c17formName[f], fmt.Sprintf("Bitmask(0x%X, 0x%X, %d) panicked in the %s writer: %s", mc.MaskTag, mc.Tag, mc.Val, c17formName[f], w[f].Panic), cas)
+			d.fail("C17/mask-rt/writer-panic/"+c17formName[f], fmt.Sprintf("Bitmask(0x%X, 0x%X, %d) panicked in the %s writer: %s", mc.MaskTag, mc.Tag, mc.Val, c17formName[f], w[f].Panic), cas)
 			return
 		}
 	}
@@ -1148,11 +1288,11 @@ func (d *c17run) oneMaskWrite(mc c17maskCase) {
 			} else if mc.Val < 0 {
 				sig += "/bit31"
 			}
-			c.Fail(sig, fmt.Sprintf("bit mask 0x%X value 0x%08X is written %q in %s and read back as %s", c17eff(mc.MaskTag, mc.Tag), uint32(mc.Val), w[f].Val, c17formName[f], r), cc)
+			d.fail(sig, fmt.Sprintf("bit mask 0x%X value 0x%08X is written %q in %s and read back as %s", c17eff(mc.MaskTag, mc.Tag), uint32(mc.Val), w[f].Val, c17formName[f], r), cc)
 		}
 	}
 	d.maskwRows = append(d.maskwRows, fmt.Sprintf("(%s, %s, %s, %s, %s, %s)", h.Z(mc.MaskTag), h.Z(mc.Tag), h.Z(mc.Val), c17Str(w[fXML].Val), c17Str(w[fJSON].Val), c17Str(w[fText].Val)))
-	c.IndexCase("mism_maskw", len(d.maskwRows)-1, cas)
+	c.IndexCase("mism_"+d.pfx+"maskw", len(d.maskwRows)-1, cas)
 	if len(d.maskwRows)%97 == 5 {
 		c.Sample(map[string]any{"table": "maskw", "masktag": mc.MaskTag, "tag": mc.Tag, "value": mc.Val, "xml": w[fXML].Val, "json": w[fJSON].Val, "text": w[fText].Val})
 	}
@@ -1171,11 +1311,11 @@ func (d *c17run) oneMaskRead(rc c17readCase) {
 	c.Count("maskr:" + rc.Form)
 	r := c17readMask(form, rc.RealTag, rc.Tag, rc.In)
 	if r.Panic != "" {
-		c.Fail("C17/mask-read/panic/"+rc.Form, fmt.Sprintf("%s Bitmask reader panicked on %v: %s", rc.Form, rc.In, r.Panic), map[string]any{"kind": "mask-read", "case": rc})
+		d.fail("C17/mask-read/panic/"+rc.Form, fmt.Sprintf("%s Bitmask reader panicked on %v: %s", rc.Form, rc.In, r.Panic), map[string]any{"kind": "mask-read", "case": rc})
 	}
 	in := rc.In.coq()
 	d.maskrRows = append(d.maskrRows, fmt.Sprintf("(%s, %s, %s, %s, %s)", h.Bool(form == fXML), h.Z(rc.RealTag), h.Z(rc.Tag), in, r.coq()))
-	c.IndexCase("mism_maskr", len(d.maskrRows)-1, map[string]any{"kind": "mask-read", "case": rc, "observed": r.String()})
+	c.IndexCase("mism_"+d.pfx+"maskr", len(d.maskrRows)-1, map[string]any{"kind": "mask-read", "case": rc, "observed": r.String()})
 }
 
 func (d *c17run) maskStrings(names []string, salt uint64) []string {
@@ -1280,6 +1420,53 @@ func c17unmarshal(ty reflect.Type, text string) c17res {
 	})
 }
 
+// c17reflectRT: ttlv.MarshalXML / MarshalJSON of a typed enum or mask value (reflective encoder,
+// enum tag found through the type registry), then Unmarshal into a fresh value of the same type.
+func c17reflectRT(ty reflect.Type, v int64, json bool) (doc string, r c17res) {
+	r = c17call(func() (int64, error) {
+		p := reflect.New(ty)
+		if ty.Kind() == reflect.Uint32 {
+			p.Elem().SetUint(uint64(uint32(v)))
+		} else {
+			p.Elem().SetInt(v)
+		}
+		q := reflect.New(ty)
+		var err error
+		if json {
+			b := ttlv.MarshalJSON(p.Elem().Interface())
+			doc = string(b)
+			err = ttlv.UnmarshalJSON(b, q.Interface())
+		} else {
+			b := ttlv.MarshalXML(p.Elem().Interface())
+			doc = string(b)
+			err = ttlv.UnmarshalXML(b, q.Interface())
+		}
+		if err != nil {
+			return 0, err
+		}
+		if ty.Kind() == reflect.Uint32 {
+			return int64(q.Elem().Uint()), nil
+		}
+		return q.Elem().Int(), nil
+	})
+	return
+}
+
+func (d *c17run) reflectOracle(ty reflect.Type, v int64, cas map[string]any) {
+	for _, js := range []bool{false, true} {
+		form := "xml"
+		if js {
+			form = "json"
+		}
+		d.c.Count("marshal-unmarshal:" + form)
+		doc, r := c17reflectRT(ty, v, js)
+		if !(r.Ok && r.Val == v) {
+			cc := map[string]any{"kind": "marshal-rt", "type": ty.String(), "value": v, "form": form}
+			d.fail("C17/marshal-rt/"+form, fmt.Sprintf("%s(0x%X) is marshalled to %s as %s and unmarshalled as %s", ty, uint32(v), form, doc, r), cc)
+		}
+	}
+}
+
 func c17sortedTypes(m map[reflect.Type]int) []reflect.Type {
 	var l []reflect.Type
 	for t := range m {
@@ -1312,17 +1499,18 @@ func (d *c17run) textCases() {
 			c.Eval(fmt.Sprintf("mtw/%s/%d", ty, v), regd[v] || v != 0)
 			c.Count("marshal-text:enum")
 			cas := map[string]any{"kind": "text-rt", "type": ty.String(), "value": v}
+			d.reflectOracle(ty, v, cas)
 			s, mr := c17marshal(ty, v)
 			if !mr.Ok {
-				c.Fail("C17/text-rt/marshal-fails", fmt.Sprintf("%s(0x%X).MarshalText: %s", ty, v, mr), cas)
+				d.fail("C17/text-rt/marshal-fails", fmt.Sprintf("%s(0x%X).MarshalText: %s", ty, v, mr), cas)
 				continue
 			}
 			r := c17unmarshal(ty, s)
 			if !(r.Ok && r.Val == v) {
-				c.Fail("C17/text-rt/enum", fmt.Sprintf("%s(0x%X).MarshalText() = %q, UnmarshalText gives %s", ty, v, s, r), cas)
+				d.fail("C17/text-rt/enum", fmt.Sprintf("%s(0x%X).MarshalText() = %q, UnmarshalText gives %s", ty, v, s, r), cas)
 			}
 			d.mtwRows = append(d.mtwRows, fmt.Sprintf("(%s, %s, %s)", h.Z(tag), h.Z(v), c17Str(s)))
-			c.IndexCase("mism_mtw", len(d.mtwRows)-1, cas)
+			c.IndexCase("mism_"+d.pfx+"mtw", len(d.mtwRows)-1, cas)
 		}
 		var texts []string
 		for xi, x := range revOf[tag] {
@@ -1343,10 +1531,10 @@ func (d *c17run) textCases() {
 			r := c17unmarshal(ty, s)
 			cas := map[string]any{"kind": "text-read", "type": ty.String(), "text": s, "observed": r.String()}
 			if r.Panic != "" {
-				c.Fail("C17/text-read/panic", fmt.Sprintf("%s.UnmarshalText(%q) panicked: %s", ty, s, r.Panic), cas)
+				d.fail("C17/text-read/panic", fmt.Sprintf("%s.UnmarshalText(%q) panicked: %s", ty, s, r.Panic), cas)
 			}
 			d.mtrRows = append(d.mtrRows, fmt.Sprintf("(%s, %s, %s)", h.Z(tag), c17Str(s), r.coq()))
-			c.IndexCase("mism_mtr", len(d.mtrRows)-1, cas)
+			c.IndexCase("mism_"+d.pfx+"mtr", len(d.mtrRows)-1, cas)
 		}
 	}
 	namesOf := map[int64][]string{}
@@ -1361,9 +1549,10 @@ func (d *c17run) textCases() {
 			c.Eval(fmt.Sprintf("mmw/%s/%d", ty, v), v != 0)
 			c.Count("marshal-text:mask")
 			cas := map[string]any{"kind": "text-rt", "type": ty.String(), "value": v}
+			d.reflectOracle(ty, v, cas)
 			s, mr := c17marshal(ty, v)
 			if !mr.Ok {
-				c.Fail("C17/text-rt/marshal-fails", fmt.Sprintf("%s(%d).MarshalText: %s", ty, v, mr), cas)
+				d.fail("C17/text-rt/marshal-fails", fmt.Sprintf("%s(%d).MarshalText: %s", ty, v, mr), cas)
 				continue
 			}
 			r := c17unmarshal(ty, s)
@@ -1372,10 +1561,10 @@ func (d *c17run) textCases() {
 				if v < 0 {
 					sig += "/bit31"
 				}
-				c.Fail(sig, fmt.Sprintf("%s(0x%08X).MarshalText() = %q, UnmarshalText gives %s", ty, uint32(v), s, r), cas)
+				d.fail(sig, fmt.Sprintf("%s(0x%08X).MarshalText() = %q, UnmarshalText gives %s", ty, uint32(v), s, r), cas)
 			}
 			d.mmwRows = append(d.mmwRows, fmt.Sprintf("(%s, %s, %s)", h.Z(tag), h.Z(v), c17Str(s)))
-			c.IndexCase("mism_mmw", len(d.mmwRows)-1, cas)
+			c.IndexCase("mism_"+d.pfx+"mmw", len(d.mmwRows)-1, cas)
 		}
 		for _, s := range d.maskStrings(names, uint64(7100+ti)) {
 			c.Eval(fmt.Sprintf("mmr/%s/%s", ty, s), s != "")
@@ -1383,72 +1572,113 @@ func (d *c17run) textCases() {
 			r := c17unmarshal(ty, s)
 			cas := map[string]any{"kind": "text-read", "type": ty.String(), "text": s, "observed": r.String()}
 			if r.Panic != "" {
-				c.Fail("C17/text-read/panic", fmt.Sprintf("%s.UnmarshalText(%q) panicked: %s", ty, s, r.Panic), cas)
+				d.fail("C17/text-read/panic", fmt.Sprintf("%s.UnmarshalText(%q) panicked: %s", ty, s, r.Panic), cas)
 			}
 			d.mmrRows = append(d.mmrRows, fmt.Sprintf("(%s, %s, %s)", h.Z(tag), c17Str(s), r.coq()))
-			c.IndexCase("mism_mmr", len(d.mmrRows)-1, cas)
+			c.IndexCase("mism_"+d.pfx+"mmr", len(d.mmrRows)-1, cas)
 		}
 	}
 }
 
 // ---- cases file
 
-func (d *c17run) writeCases() error {
-	var sb strings.Builder
-	sb.WriteString("From Coq Require Import ZArith List Bool String.\nFrom KV Require Import Base RegModel Cases.\nFrom KVGen Require Registry.\nImport ListNotations.\nOpen Scope Z_scope.\nOpen Scope string_scope.\n")
-	sb.WriteString(`
-Definition R : registry :=
-  mk_registry Registry.tag_names Registry.tag_by_name Registry.enum_names Registry.enums_by_name
-              Registry.bitmask_names Registry.bitmask_by_name Registry.type_names Registry.name_types.
+// c17okDefs are the row checkers, for a registry named reg and definitions prefixed pfx.
+func c17okDefs(pfx, reg string) string {
+	t := `
+(* tag written: (n, TagString, xml element, xml tag attribute, json tag, text tag) *)
+Definition @tagw_ok (r : Z * str * str * option str * str * str) : bool :=
+  match r with (n, ts, xn, xa, js, tx) =>
+    str_eqb (TagString # n) ts && str_eqb (fst (xml_start # n)) xn && ostr_eqb (snd (xml_start # n)) xa &&
+    str_eqb (TagString # n) js && str_eqb (TagString # n) tx end.
+(* tag read: (element name or TTLV, tag attribute / JSON tag string, Decoder.Tag()) *)
+Definition @tagr_ok (r : str * option str * res Z) : bool :=
+  match r with (xn, xa, o) => res_eqb (Ok (read_tag # (xml_raw_tag (xn, xa)))) o end.
+Definition @enumw_ok (r : Z * Z * Z * str * str * str) : bool :=
+  match r with (et, t, v, x, j, tx) =>
+    let w := write_enum # et t v in str_eqb w x && str_eqb w j && str_eqb w tx end.
+Definition @enumr_ok (r : Z * Z * jval * res Z) : bool :=
+  match r with (rt, t, v, o) => res_eqb (read_enum_json # rt t v) o end.
+Definition @maskw_ok (r : Z * Z * Z * str * str * str) : bool :=
+  match r with (mt, t, v, x, j, tx) =>
+    str_eqb (write_mask_xml # mt t v) x && str_eqb (write_mask_json # mt t v) j &&
+    str_eqb (write_mask_text # (eff_tag mt t) v) tx end.
+Definition @maskr_ok (r : bool * Z * Z * jval * res Z) : bool :=
+  match r with (isxml, rt, t, v, o) =>
+    res_eqb (if isxml then match v with JStr s => read_mask_xml # rt t s | _ => Err end else read_mask_json # rt t v) o end.
+Definition @mtw_ok (r : Z * Z * str) : bool := match r with (t, v, s) => str_eqb (marshal_text # t v) s end.
+Definition @mtr_ok (r : Z * str * res Z) : bool := match r with (t, s, o) => res_eqb (unmarshal_text # t s) o end.
+Definition @mmw_ok (r : Z * Z * str) : bool := match r with (t, v, s) => str_eqb (write_mask_text # t v) s end.
+Definition @mmr_ok (r : Z * str * res Z) : bool := match r with (t, s, o) => res_eqb (mask_unmarshal_text # t s) o end.
+`
+	return strings.ReplaceAll(strings.ReplaceAll(t, "@", pfx), "#", reg)
+}
+
+func (d *c17run) emit(sb *strings.Builder, total *int) map[string]int {
+	emit := func(name, ty string, rows []string) {
+		defs, expr := h.Chunk(d.pfx+name, ty, rows, 300)
+		sb.WriteString(defs)
+		fmt.Fprintf(sb, "Definition mism_%s%s := Eval vm_compute in bad_idx %s%s_ok %s 0.\nPrint mism_%s%s.\n", d.pfx, name, d.pfx, name, expr, d.pfx, name)
+		*total += len(rows)
+	}
+	emit("tagw", "Z * str * str * option str * str * str", d.tagwRows)
+	emit("tagr", "str * option str * res Z", d.tagrRows)
+	emit("enumw", "Z * Z * Z * str * str * str", d.enumwRows)
+	emit("enumr", "Z * Z * jval * res Z", d.enumrRows)
+	emit("maskw", "Z * Z * Z * str * str * str", d.maskwRows)
+	emit("maskr", "bool * Z * Z * jval * res Z", d.maskrRows)
+	emit("mtw", "Z * Z * str", d.mtwRows)
+	emit("mtr", "Z * str * res Z", d.mtrRows)
+	emit("mmw", "Z * Z * str", d.mmwRows)
+	emit("mmr", "Z * str * res Z", d.mmrRows)
+	return map[string]int{"tagw": len(d.tagwRows), "tagr": len(d.tagrRows), "enumw": len(d.enumwRows), "enumr": len(d.enumrRows),
+		"maskw": len(d.maskwRows), "maskr": len(d.maskrRows), "mtw": len(d.mtwRows), "mtr": len(d.mtrRows), "mmw": len(d.mmwRows), "mmr": len(d.mmrRows)}
+}
+
+const c17casesHeader = `From Coq Require Import ZArith List Bool String.
+From KV Require Import Base RegModel Cases.
+From KVGen Require Registry.
+Import ListNotations.
+Open Scope Z_scope.
+Open Scope string_scope.
+
 Definition res_eqb (a b : res Z) : bool :=
   match a, b with Ok x, Ok y => Z.eqb x y | Err, Err => true | _, _ => false end.
 Definition ostr_eqb (a b : option str) : bool :=
   match a, b with Some x, Some y => str_eqb x y | None, None => true | _, _ => false end.
-(* tag written: (n, TagString, xml element, xml tag attribute, json tag, text tag) *)
-Definition tagw_ok (r : Z * str * str * option str * str * str) : bool :=
-  match r with (n, ts, xn, xa, js, tx) =>
-    str_eqb (TagString R n) ts && str_eqb (fst (xml_start R n)) xn && ostr_eqb (snd (xml_start R n)) xa &&
-    str_eqb (TagString R n) js && str_eqb (TagString R n) tx end.
-(* tag read: (element name or TTLV, tag attribute / JSON tag string, Decoder.Tag()) *)
-Definition tagr_ok (r : str * option str * res Z) : bool :=
-  match r with (xn, xa, o) => res_eqb (Ok (read_tag R (xml_raw_tag (xn, xa)))) o end.
-Definition enumw_ok (r : Z * Z * Z * str * str * str) : bool :=
-  match r with (et, t, v, x, j, tx) =>
-    let w := write_enum R et t v in str_eqb w x && str_eqb w j && str_eqb w tx end.
-Definition enumr_ok (r : Z * Z * jval * res Z) : bool :=
-  match r with (rt, t, v, o) => res_eqb (read_enum_json R rt t v) o end.
-Definition maskw_ok (r : Z * Z * Z * str * str * str) : bool :=
-  match r with (mt, t, v, x, j, tx) =>
-    str_eqb (write_mask_xml R mt t v) x && str_eqb (write_mask_json R mt t v) j &&
-    str_eqb (write_mask_text R (eff_tag mt t) v) tx end.
-Definition maskr_ok (r : bool * Z * Z * jval * res Z) : bool :=
-  match r with (isxml, rt, t, v, o) =>
-    res_eqb (if isxml then match v with JStr s => read_mask_xml R rt t s | _ => Err end else read_mask_json R rt t v) o end.
-Definition mtw_ok (r : Z * Z * str) : bool := match r with (t, v, s) => str_eqb (marshal_text R t v) s end.
-Definition mtr_ok (r : Z * str * res Z) : bool := match r with (t, s, o) => res_eqb (unmarshal_text R t s) o end.
-Definition mmw_ok (r : Z * Z * str) : bool := match r with (t, v, s) => str_eqb (write_mask_text R t v) s end.
-Definition mmr_ok (r : Z * str * res Z) : bool := match r with (t, s, o) => res_eqb (mask_unmarshal_text R t s) o end.
+`
+
+// writeCases: cases_C17.v evaluates the model at the library's registry (gen/Registry.v);
+// cases_C17_t.v at the test registry (library's entries + deliberately unhygienic ones), whose
+// content is printed into the file itself.
+func (d *c17run) writeCases(dt *c17run, tsnap *reg.Snapshot) error {
+	var sb strings.Builder
+	sb.WriteString(c17casesHeader)
+	sb.WriteString(`
+Definition R : registry :=
+  mk_registry Registry.tag_names Registry.tag_by_name Registry.enum_names Registry.enums_by_name
+              Registry.bitmask_names Registry.bitmask_by_name Registry.type_names Registry.name_types.
 `)
+	sb.WriteString(c17okDefs("", "R"))
 	total := 0
-	emit := func(name, ty, okf string, rows []string) {
-		defs, expr := h.Chunk(name, ty, rows, 300)
-		sb.WriteString(defs)
-		fmt.Fprintf(&sb, "Definition mism_%s := Eval vm_compute in bad_idx %s %s 0.\nPrint mism_%s.\n", name, okf, expr, name)
-		total += len(rows)
+	d.c.Extra("rows_per_table", d.emit(&sb, &total))
+	if err := d.c.WriteCases("cases_C17.v", sb.String(), total); err != nil {
+		return err
 	}
-	emit("tagw", "Z * str * str * option str * str * str", "tagw_ok", d.tagwRows)
-	emit("tagr", "str * option str * res Z", "tagr_ok", d.tagrRows)
-	emit("enumw", "Z * Z * Z * str * str * str", "enumw_ok", d.enumwRows)
-	emit("enumr", "Z * Z * jval * res Z", "enumr_ok", d.enumrRows)
-	emit("maskw", "Z * Z * Z * str * str * str", "maskw_ok", d.maskwRows)
-	emit("maskr", "bool * Z * Z * jval * res Z", "maskr_ok", d.maskrRows)
-	emit("mtw", "Z * Z * str", "mtw_ok", d.mtwRows)
-	emit("mtr", "Z * str * res Z", "mtr_ok", d.mtrRows)
-	emit("mmw", "Z * Z * str", "mmw_ok", d.mmwRows)
-	emit("mmr", "Z * str * res Z", "mmr_ok", d.mmrRows)
-	d.c.Extra("rows_per_table", map[string]int{"tagw": len(d.tagwRows), "tagr": len(d.tagrRows), "enumw": len(d.enumwRows), "enumr": len(d.enumrRows),
-		"maskw": len(d.maskwRows), "maskr": len(d.maskrRows), "mtw": len(d.mtwRows), "mtr": len(d.mtrRows), "mmw": len(d.mmwRows), "mmr": len(d.mmrRows)})
-	return d.c.WriteCases("cases_C17.v", sb.String(), total)
+	if dt == nil {
+		return nil
+	}
+	var st strings.Builder
+	st.WriteString(tsnap.Coq("t_", "(* the test registry: the library's entries plus the unhygienic ones registered by the driver *)\n"))
+	st.WriteString(strings.Replace(c17casesHeader, "From KVGen Require Registry.\n", "", 1))
+	st.WriteString(`
+Definition T : registry :=
+  mk_registry t_tag_names t_tag_by_name t_enum_names t_enums_by_name
+              t_bitmask_names t_bitmask_by_name t_type_names t_name_types.
+`)
+	st.WriteString(c17okDefs("t_", "T"))
+	total = 0
+	d.c.Extra("rows_per_table_test_registry", dt.emit(&st, &total))
+	return d.c.WriteCases("cases_C17_t.v", st.String(), total)
 }
 
 // ---------------------------------------------------------------- replay of one dynamic case
@@ -1466,7 +1696,7 @@ func c17num(m map[string]any, k string) int64 {
 }
 
 func c17replayDynamic(c *h.Ctx, cas map[string]any) error {
-	d := &c17run{c: c, live: reg.FromLive()}
+	d := &c17run{c: c, live: reg.FromLive(), oracle: true}
 	kind, _ := cas["kind"].(string)
 	switch kind {
 	case "tag-rt":
@@ -1484,6 +1714,16 @@ func c17replayDynamic(c *h.Ctx, cas map[string]any) error {
 		d.oneEnumWrite(c17enumCase{c17num(cas, "enumtag"), c17num(cas, "tag"), c17num(cas, "value")}, true)
 	case "mask-rt":
 		d.oneMaskWrite(c17maskCase{c17num(cas, "masktag"), c17num(cas, "tag"), c17num(cas, "value")})
+	case "marshal-rt":
+		tyName, _ := cas["type"].(string)
+		for _, m := range []map[reflect.Type]int{reg.EnumGoTypes(), reg.BitmaskGoTypes()} {
+			for ty := range m {
+				if ty.String() == tyName {
+					c.Eval("replay", true)
+					d.reflectOracle(ty, c17num(cas, "value"), cas)
+				}
+			}
+		}
 	case "text-rt":
 		tyName, _ := cas["type"].(string)
 		v := c17num(cas, "value")
